@@ -7,6 +7,7 @@ structure, unrecovered journals, orphan lists.  This is bounded liveness: once f
 repair run must reach a state the checker accepts.
 """
 import hashlib
+import struct
 
 from framework import Check, Outcome, main
 from simcore import Rng, log_hash
@@ -16,6 +17,19 @@ from world import e2fsck, fsck_status_ok_for_repair
 
 def fault_signature(faults):
     return "+".join(sorted(set(f["cls"] for f in faults))) or "none"
+
+
+def system_inodes(img):
+    with open(img, "rb") as f:
+        f.seek(1024)
+        sb = f.read(1024)
+    u32 = lambda o: struct.unpack_from("<I", sb, o)[0]
+    first = u32(84) if u32(76) else 11
+    out = set(str(i) for i in range(1, min(first, 64)) if i != 2)
+    for o in (224, 576, 580, 620, 0x280):
+        if u32(o):
+            out.add(str(u32(o)))
+    return out
 
 
 class C01(Check):
@@ -33,7 +47,7 @@ class C01(Check):
     reference_models = ["the property statement itself (two exit statuses and the problem log of the second run)"]
 
     def budget(self, tier):
-        return {"runs": 1400, "wall_s": 80} if tier == "quick" else {"runs": 60000, "wall_s": 1500}
+        return {"runs": 2500, "wall_s": 100} if tier == "quick" else {"runs": 60000, "wall_s": 1500}
 
     def generate(self, rng, tier):
         kind = rng.weighted([("faults", 12), ("crashed_writer", 5), ("journal+faults", 2), ("orphan", 1), ("journal", 1)])
@@ -56,6 +70,8 @@ class C01(Check):
         o.stats["fy.status.%s" % r1.status] += 1
         o.stats["state." + spec["state"]] += 1
         sig = fault_signature(st["faults"]) if st["faults"] else spec["state"]
+        for c_ in set(f["cls"].split("~")[0] for f in st["faults"]):
+            o.stats["fault." + c_] += 1
         cw = (st["details"].get("crash") or {}).get("writer")
         if cw and not st["faults"]:
             # which tool was interrupted matters: a crashed whole-filesystem rewrite is a different class
@@ -94,7 +110,10 @@ class C01(Check):
             # reported again -- the repair was not made, or was undone, as opposed to a repair that uncovers or
             # causes a different problem.  Keyed apart so that a listed family of the second kind cannot absorb it.
             fixed1 = set((c, obj) for c, yes, obj in r1.problem_records if yes and any(obj))
-            recur = sorted(set(c for c, _yes, obj in r2.problem_records if (c, obj) in fixed1))
+            # (not for the inodes the tools own -- resize, journal, quota, orphan file: e2fsck rebuilds those wholesale,
+            # at a point of the run where the per-block problems of the old one have already been answered)
+            system = system_inodes(img)
+            recur = sorted(set(c for c, _yes, obj in r2.problem_records if (c, obj) in fixed1 and obj[0] not in system))
             if recur:
                 key = "%s|recur:%s" % (sig, ",".join("%x" % c for c in recur[:6]))
                 o.stats["probe.recurrence"] += 1
